@@ -241,6 +241,13 @@ def judge_test_case(tc, cf, recipe, dd, ctx):
                               % (n, [p[0]["pic_num"] for p in v.pictures]))
         if cname == "picture_numbers":
             check_picture_numbers(tc, v, cf, ctx)
+        if cname == "padding_data":
+            # documented source: "a sequence containing two blank frames"
+            want = 2 * (2 if int(cf["picture_coding_mode"]) == 1 else 1)
+            ctx.count("padding_data_picture_counts_checked")
+            if len(v.pictures) != want:
+                ctx.violation("variant-picture-count:padding_data", "test case %s decodes to %d pictures, its documented source (two blank frames) has %d (%s)"
+                              % (name, len(v.pictures), want, configs.stratum(recipe)))
     elif cname in SPRITE_CASES:
         ref = reference_sprite_pictures(cf)
         if ref is None:
